@@ -2,7 +2,7 @@ package c10
 
 // `rb` cases: response_body selection on NESTED response messages (round 5).
 //
-//	rb <schema> <msg> <path hex>  =>  <oracle> <ok:<body hex>|err:<code>>
+//	rb <schema> <msg> <path hex>  =>  <oracle> <ok:<body hex>|err:<code>> <ok:<stream hex>|err:<code>:<written hex>|nostream>
 //
 // schema = message types "M0;M1;…" (M0 = response type), each "name:type,name:type,…" ("-" = no fields); types:
 // b i32 i64 u32 u64 s y (singular scalar), R<t> (repeated scalar), M<kt>/<t> (map<kt, scalar>), m<i> (singular
@@ -17,6 +17,7 @@ package c10
 // clone, before the transcoder touches the message, and independent of traverseFieldPath.
 
 import (
+	"bytes"
 	"fmt"
 	"math"
 	"math/rand"
@@ -374,13 +375,30 @@ func execRb(f []string) string {
 	if err != nil {
 		return "BINDFAIL"
 	}
+	forStream := proto.Clone(msg)
 	res := ""
 	if b, err := out.Transcode(msg); err != nil {
 		res = "err:" + status.Code(err).String()
 	} else {
 		res = "ok:" + common.Hex(b)
 	}
-	return strings.Join(oracle, ";") + " " + res
+	// the same binding as a response STREAM (standardResponseStream: the marshaler's Encoder): the same message twice —
+	// the second pass sees the sub-messages the first pass's Mutable materialised
+	stream := "nostream"
+	if rst, ok := out.(transcoding.ResponseStreamTranscoder); ok {
+		var buf bytes.Buffer
+		ts := rst.Stream(&buf)
+		stream = ""
+		for i := 0; i < 2 && stream == ""; i++ {
+			if err := ts.Transcode(forStream); err != nil {
+				stream = "err:" + status.Code(err).String() + ":" + common.Hex(buf.Bytes())
+			}
+		}
+		if stream == "" {
+			stream = "ok:" + common.Hex(buf.Bytes())
+		}
+	}
+	return strings.Join(oracle, ";") + " " + res + " " + stream
 }
 
 /* ---------- generator ---------- */
